@@ -580,6 +580,21 @@ class Ctx:
             len(self.obligations), len(self.discharged), self.cov["evaluations"], len(self.broken), len(self.failing), self.known, exit_code))
         return exit_code
 
+    @staticmethod
+    def _cap(x, depth=0):
+        """keep evidence files small: long strings and long lists are truncated (with a marker)"""
+        if isinstance(x, str):
+            return x if len(x) <= 1500 else x[:1500] + " …[truncated %d chars]" % (len(x) - 1500)
+        if isinstance(x, (list, tuple)):
+            lim = 60 if depth == 0 else 40
+            y = [Ctx._cap(v, depth + 1) for v in list(x)[:lim]]
+            if len(x) > lim:
+                y.append("…[%d more entries]" % (len(x) - lim))
+            return y
+        if isinstance(x, dict):
+            return {k: Ctx._cap(v, depth + 1) for k, v in list(x.items())[:400]}
+        return x
+
     def write_evidence(self):
         EVID.mkdir(exist_ok=True)
         cov = dict(self.cov)
@@ -597,6 +612,11 @@ class Ctx:
             "wall_s": round(time.time() - self.t0, 2), "violations": self.violations,
             "known_findings_reported": self.known,
         }
-        tmp = EVID / (self.prop + ".json.tmp")
+        names = cov.get("obligation_names", [])
+        ev["coverage"] = self._cap(cov)
+        ev["coverage"]["obligation_names"] = names[:400]
+        ev["coverage"]["obligations"] = len(self.obligations)
+        ev["coverage"]["discharged"] = cov["discharged"]
+        tmp = EVID / (self.prop + ".json.tmp%d" % os.getpid())
         tmp.write_text(json.dumps(ev, indent=1, default=str))
         os.replace(tmp, EVID / (self.prop + ".json"))
